@@ -56,12 +56,17 @@ def coq_case(case, o):
     ms = core.coq_list(["(%s, %s)" % t for t in trees])
     # Python-falsy values among the atoms of this case (only consulted when a translated fact is a truthiness test)
     falsy = core.coq_list(["%d" % i for a, i in sorted(T.atoms.items(), key=lambda x: x[1]) if a in FALSY])
-    return "%srun_models src_facts %s %s %s %s" % (T.lets(), regl, falsy, core.coq_list(tbl), ms), T
+    mreg = [(idx[n], suf) for n, suf in sorted(case.get("match_reg", {}).items()) if n in idx]
+    mexpr = "run_match %s %s %s" % (core.coq_list(["%d" % i for i, _ in mreg]),
+                                    core.coq_list(["(%d, %s)" % (i, core.coq_str(suf)) for i, suf in mreg]),
+                                    core.coq_list([cm.coq_ptree(t) for t in o.get("forest", [])]))
+    return "%sString.append (run_models src_facts %s %s %s %s) (String.append \"%%\" (%s))" % (T.lets(), regl, falsy, core.coq_list(tbl), ms, mexpr), T
 
 
 def impl_string(o, T):
     procs = [e for e in o["events"] if e["k"] == "proc"]
-    return T.recode("|".join("%d(%s)" % (e["p"], e["snap"]) for e in procs) + "$" + "$".join(m["final"] for m in o["models"]))
+    return T.recode("|".join("%d(%s)" % (e["p"], e["snap"]) for e in procs) + "$" + "$".join(m["final"] for m in o["models"])) + "%" + \
+        "|".join("%d(%s)" % (e["p"], core.canon_text(e["v"])) for e in o["events"] if e["k"] == "match")
 
 
 def classify(case, o):
@@ -112,6 +117,8 @@ def run(chk):
             chk.stat("import graph %s (%d models under construction)" % (c.get("shape") or "pair", len(c["files"]) + 1))
         if "resolve" in kinds:
             chk.stat("with references")
+        nm = kinds.count("match")
+        chk.stat("match-rule processor calls %s" % ("0" if nm == 0 else "1-4" if nm <= 4 else "5+"))
         if any(e["id"] == 0 for e in procs):
             chk.stat("abstract-rule processor on a primitive value")
         # correspondence with the translated phase order: the blocks of events the load produced
